@@ -175,7 +175,14 @@ impl Lexicon {
                     );
                     return Err(VibratoError::invalid_format(name, msg));
                 }
-                let feature = std::str::from_utf8(&features_bytes[..features_len - 1])?;
+                // The last counted byte is the record terminator, except when the record was
+                // closed by the end of the input (no byte was consumed for the last field).
+                let features_end = if nin == 0 {
+                    features_len
+                } else {
+                    features_len - 1
+                };
+                let feature = std::str::from_utf8(&features_bytes[..features_end])?;
                 if surface.is_empty() {
                     eprintln!(
                         "Skipped an empty surface, {:?}",
